@@ -90,7 +90,12 @@ func discharge(obls []*Obligation, timeoutMs int) {
 		}
 		o := o
 		ctr := 0
-		asserts := append(append([]*Term{}, o.Assumes...), Not(extGoal(o.Goal, true, &ctr)))
+		as, goal := propagate(o.Assumes, o.Goal)
+		if goal == TTrue {
+			o.Res = SolverResult{Status: "unsat", Solver: "propagation"}
+			continue
+		}
+		asserts := append(append([]*Term{}, as...), Not(extGoal(goal, true, &ctr)))
 		asserts = append(asserts, canonFacts(asserts)...)
 		var modelTerms []*Term
 		for _, in := range o.Inputs {
